@@ -690,7 +690,9 @@ def run(ck: Check) -> None:
         "Dcg/Sem/Schema.validJ is our statement of JSON-Schema validity for the supported keywords (compared with jsonschema 4.x in this run); Dcg/Sem/Pyd.acceptsTy is our statement of pydantic's lax-mode validation (compared with the exec'd classes in this run); both are trusted, not verified",
         "regular expressions are an uninterpreted oracle shared by both sides of every theorem; the run-time oracle is Python re.search on a fixed pattern pool",
         "numbers are decimals with at most two fractional digits; IEEE rounding is not modelled",
-        "allOf composition and discriminators are outside the Lean Schema type: covered by the end-to-end oracle only",
+        "discriminators: validity is jsonschema's reading AND OpenAPI's (the tag selects, through the written or implicit mapping, an alternative under which the value is valid); the Lean model rewrites the class of an alternative where the tagged union looks it up, the real pass rewrites the class itself: documents in which a discriminated definition is also referenced directly, or is discriminated with two different tag sets, are outside the model (counted as unmodelled)",
+        "Dcg/Sem/Pyd.dump is our statement of model_dump(by_alias=True, exclude_unset=True) / .json(by_alias=True, exclude_unset=True); member order and the alternative pydantic's smart-mode union picks are not modelled (dumps are compared canonically, and only when `declared` holds or the document has no union)",
+        "`required` next to allOf, dataclass and TypedDict targets, and the default-off options reuse_model / collapse_root_models are covered by the end-to-end oracle only",
         "dataclass output has no aliases and no 'unset' state: documents with non-identifier member names are not sent to the dataclass target, and members that are absent in the instance (they dump as their default) are not counted as a difference",
         "pydantic-v1-style output runs on the pydantic.v1 shim of pydantic 2.x",
     ]
